@@ -193,4 +193,28 @@ p("c04-p-empty-rename", "C04", FA + "epsilon_nfa.py",
   "            if current in self._final_states:\n                return False\n            for symbol in self._input_symbols:\n                for state in self._transition_function(current, symbol):\n                    if state not in processed:",
   "            if self.is_final_state(current):\n                return False\n            for symbol in self._input_symbols:\n                for state in self._transition_function(current, symbol):\n                    if state not in processed:")
 
+# ----------------------------------------------------------------------------- C06
+b("c06-no-initial-merge", "C06", FA + "epsilon_nfa.py",
+  "        self._create_or_transitions()\n        states = self._states.copy()", "        states = self._states.copy()",
+  "merged-before-elimination")
+b("c06-no-trailing-merge", "C06", FA + "epsilon_nfa.py",
+  "        # We make sure the automaton has the good structure\n        self._create_or_transitions()\n", "",
+  "merged-before-elimination")
+b("c06-remove-state-ignores-eps", "C06", FA + "epsilon_nfa.py",
+  "        for symbol in self._input_symbols.union({Epsilon()}):\n            out_states = self._transition_function(state, symbol).copy()",
+  "        for symbol in self._input_symbols:\n            out_states = self._transition_function(state, symbol).copy()",
+  "outgoing-edges-cover-epsilon")
+b("c06-merge-ignores-eps", "C06", FA + "epsilon_nfa.py",
+  "            new_transitions = {}\n            input_symbols = self._input_symbols.copy().union({Epsilon()})",
+  "            new_transitions = {}\n            input_symbols = self._input_symbols.copy()", "covers-epsilon-edges")
+b("c06-keeps-other-finals", "C06", FA + "epsilon_nfa.py",
+  "                if i != j:\n                    enfas[j].remove_final_state(final_states[i])\n",
+  "                pass\n", "other-finals-removed")
+b("c06-raises-keyerror", "C06", FA + "epsilon_nfa.py",
+  "        if not self._final_states or not self._start_state:\n            return \"\"",
+  "        if not self._final_states or not self._start_state:\n            raise KeyError(\"nothing\")", "raise:KeyError")
+p("c06-p-rename", "C06", FA + "epsilon_nfa.py",
+  "        for enfa in enfas:\n            # pylint: disable=protected-access\n            enfa._remove_all_basic_states()\n            # pylint: disable=protected-access\n            regex_sub = enfa._get_regex_simple()",
+  "        for one in enfas:\n            one._remove_all_basic_states()\n            regex_sub = one._get_regex_simple()")
+
 VARIANTS = V
